@@ -5,7 +5,7 @@ KINDS = ["EMA", "TR", "ATR", "MACD", "KC", "CE"]
 t2_checker = "check_t2_window"
 rule = ("EMA, TR, ATR, MACD, KC, CE: (A) short sequences over scalar and bar alphabets (negative values; bars covering the three TrueRange "
         "branches in all orders) for all period tuples over 1..4; (B) seeded streams (walk / signed / ties / gapping bars) with periods up to "
-        "1024 incl. period 1, equal fast/slow, fast > slow, multipliers {0,0.5,2,-1,1e3}. Every prefix is compared bit-exactly with the float "
+        "1024 incl. period 1, equal fast/slow, fast > slow, multipliers {-1,2,0,0.5,1e3,-2.5} each used for every kind with a multiplier (deterministic rotation). Every prefix is compared bit-exactly with the float "
         "model (T1) and within tau+(t)*maxmag with the exact rational model (T2; streams up to a few hundred inputs because the exact EMA's "
         "denominators grow like (n+1)^t). Non-trivial: distinct case with at least 3 inputs not all equal")
 assumptions = ["tau+(t) >= tau(t); T2 validates the rounding component (float recursion within tau of the exact recursion)"]
@@ -42,7 +42,7 @@ def gen_cases(ctx):
         big = [(r.choice([5, 14, 26, 100, 1024]), r.choice([1, 12, 26]), r.choice([1, 9]), 0.0) for _ in range(2 if not ctx.thorough else 8)]
         for gi, pr in enumerate(grid + big):
             k = nper(ind)
-            pr = tuple(pr[i] if i < k else 0 for i in range(3)) + (r.choice([0.0, 0.5, 2.0, -1.0, 1e3]) if ind in HAS_MULT else 0.0,)
+            pr = tuple(pr[i] if i < k else 0 for i in range(3)) + (([-1.0, 2.0, 0.0, 0.5, 1e3, -2.5][gi % 6]) if ind in HAS_MULT else 0.0,)   # every multiplier class for every kind, seed-independent
             for rep in range((2 if not ctx.thorough else 4) if ind != "MACD" else 1):
                 n = r.choice([6, 12, 40]) if gi < len(grid) else r.choice([60, 150] if not ctx.thorough else [150, 400])
                 if ind == "CE" or (ind in ("TR", "ATR", "KC") and rep % 2 == 1):
